@@ -14,7 +14,7 @@ LEVEL = 'exploration'
 RULE = ('inputs: Hypothesis text() over the full code-point range (surrogates, NUL, BOM); lexical soup with `/` '
         'and broken pieces; every kind of single-character corruption (delete / replace by one of 46 hot characters) '
         'and truncation of G1 programs and repository snippets; exhaustively all strings of length <= 3 (quick) / '
-        '<= 4 (thorough) over a hot alphabet; a coverage-guided atheris/libFuzzer campaign (seed corpus = repository snippets + empty input, JS token dictionary) with the same oracle inside the target; each through parse(text), parse(text, with_comments=True) and bare '
+        '<= 4 (thorough) over a hot alphabet; runs of 33 / 48 / 600 repetitions of one lexical unit (combining marks, escapes, brackets, comment and string openers, operators ...) in 16 contexts where the lexer looks ahead or retries; a coverage-guided atheris/libFuzzer campaign (seed corpus = repository snippets + empty input, JS token dictionary) with the same oracle inside the target; each through parse(text), parse(text, with_comments=True) and bare '
         'Lexer iteration. Oracle: outcome is a tree or ECMASyntaxError (subclass); nothing else escapes; no case '
         'exceeds the process-level watchdog twice (each case runs in a child interpreter that is killed on timeout); the first quoted text of a syntax-error message occurs in the input at the '
         'quoted line:column. non-trivial = input containing a string/regex/comment opener or >= 2 tokens '
@@ -295,6 +295,10 @@ def plan(tier, seed):
     for k in range(ns):
         shards.append({'name': 'exh-%d' % k, 'kind': 'exh', 'lo': k * step, 'hi': min(total, (k + 1) * step),
                        'alpha': alpha})
+    # long runs of one lexical unit in the positions where the lexer looks ahead or retries (catastrophic
+    # back-tracking shows as a hang, which the watchdog turns into a violation)
+    for k in range(4):
+        shards.append({'name': 'runs-%d' % k, 'kind': 'runs', 'k': k, 'of': 4})
     # coverage-guided campaign (atheris/libFuzzer), one child interpreter per shard
     nf, runs = (2, 2500) if quick else (16, 200000)
     fuzz = [{'name': 'fuzz-%d' % k, 'kind': 'fuzz', 'runs': runs, 'fseed': seed * 100 + k + 1} for k in range(nf)]
@@ -319,6 +323,19 @@ def exh_string(index, alpha):
     return ''.join(out[::-1])
 
 
+RUN_UNITS = [u'\u0301', u'\u0300\u0301', 'a', 'a1', '\\', '(', ')', '[', '/*', '*/', "'", '"', '/', '.', '0', 'e', '+', '-', ' ',
+             '\n', u'\u203f', '\\u0061', '=', 'x=', '/a', '*', '{', '}', ';', ',', '?a:', 'a.']
+RUN_CONTEXTS = ['%s', 'get %s(', 'set\n%s (', 'var get;\nget\na%s = 1;', 'x = {get a%s(){}}', 'x = /%s', 'x = /[%s', "'%s",
+                '"\\%s', 'a%s', 'a%s;', '/*%s', '//%s', 'x = 1%s', 'return\n%s;', 'a\n++%s']
+
+
+def run_texts():
+    for ctx in RUN_CONTEXTS:
+        for unit in RUN_UNITS:
+            for n in (33, 48, 600):
+                yield ctx % (unit * n)
+
+
 def run_shard(shard):
     from harness.hyp import run_given
     from hypothesis import strategies as st
@@ -332,7 +349,13 @@ def run_shard(shard):
         acc.case(text, nontrivial(text), {'text': text, 'origin': origin} if sample else None)
         acc.label('%s_parse_%s' % (origin, labels[0] if labels else '?'))
 
-    if kind == 'text':
+    if kind == 'runs':
+        n = 0
+        for idx, text in enumerate(run_texts()):
+            if idx % shard['of'] == shard['k']:
+                one(text, 'runs', sample=(n % 40 == 0))
+                n += 1
+    elif kind == 'text':
         strat = st.one_of(
             st.text(max_size=60),
             st.text(alphabet=st.characters(), max_size=200),
